@@ -382,6 +382,11 @@ impl<'de, R: Reader<'de>> Deserializer<R> {
             let shared = unsafe {
                 if self.shared.is_none() {
                     self.shared = Some(Arc::new(Shared::default()));
+                    #[cfg(sonic_rs_verif)]
+                    crate::verif::event(
+                        crate::verif::EV_ARENA_NEW,
+                        Arc::as_ptr(self.shared.as_ref().unwrap()) as usize,
+                    );
                 }
                 let shared = self.shared.as_mut().unwrap();
                 &mut *(Arc::as_ptr(shared) as *mut _)
